@@ -1,5 +1,6 @@
 import Rie.Proofs.Sys
 import Rie.Props.Tables
+import Rie.Props.RoutesTable
 
 /-!
 # C18 — Snapshot restore protocol and credential endpoint
@@ -114,5 +115,14 @@ example :
     s.outs = ["ev restoreRuntimeDone:success:-", "restore done err=ok"] ∧
     (step 0 s (.rtCreds "good")).outs = ["rt.creds:good=200,key=K2"] ∧ (step 0 s (.rtCreds "x")).outs = ["rt.creds:x=404"] := by
   decide
+
+/-- **Snapshot-only routes — in the source.** In the route table read from `lambda/rapi/router.go`
+    and `server.go` on every run, the restore poll, the restore error report and the credentials
+    endpoint are the routes registered under `InitCaching` only, and nothing else is. -/
+theorem C18_snapshot_routes_in_source :
+    (Rie.Gen.routes.filter (·.2.2.1 == "snapshot")).map (fun r => (r.1, r.2.1)) =
+      [("GET", "/2018-06-01/runtime/restore/next"), ("POST", "/2018-06-01/runtime/restore/error"),
+       ("GET", "/2021-04-23/credentials")] := by
+  rw [RoutesTable.gen_routes_match]; decide
 
 end Rie.Props.C18
